@@ -135,6 +135,18 @@ static int decode_header(const tar_header_t *hdr, unsigned int set_by_pax,
 	switch (hdr->typeflag) {
 	case '\0':
 	case TAR_TYPE_FILE:
+		/*
+		  Unix V7 has no type flag for directories. A "regular file"
+		  whose name ends in a slash is a directory there, and every
+		  tar implementation keeps reading it that way.
+		 */
+		if (out->name != NULL && out->name[0] != '\0' &&
+		    out->name[strlen(out->name) - 1] == '/') {
+			out->mode |= S_IFDIR;
+		} else {
+			out->mode |= S_IFREG;
+		}
+		break;
 	case TAR_TYPE_GNU_SPARSE:
 		out->mode |= S_IFREG;
 		break;
